@@ -501,8 +501,8 @@ def run(tier="quick", seed=0, only=None, verbose=False):
             optional = any(m.replace(".", "/") + ".py" == f for fs in OPTIONAL_FEATURE_FILES.values() for f in fs)
             st = DISCHARGED if rc == 0 else FAILED
             detail = err[0]
-            if rc != 0 and optional and ("PySpice" in detail or "ModuleNotFoundError" in detail):
-                st, detail = DISCHARGED, "optional feature, dependency absent: " + detail
+            # a module that offers an optional feature must still import when the optional dependency is absent (it is
+            # absent here): the guard has to be an availability flag, not an import error
             if st == FAILED and not _is_name_failure(detail):
                 # the import stops for a reason that is not a missing library name (in this
                 # sandbox: data files listed in /root/.vp/EMPTIED_FILES.txt are empty).  Not an
@@ -524,7 +524,8 @@ def run(tier="quick", seed=0, only=None, verbose=False):
     rep.clause("other-versions", "N", "versions of numpy/scipy/h5py/python other than the installed ones are "
                "covered only through the hand-written history table")
     rep.clause("optional", "P", "optional dependency PySpice is imported only under an availability guard in "
-               "custom/pyspice.py and custom/irex/frontends.py")
+               "custom/pyspice.py and custom/irex/frontends.py, and those modules import without it (PySpice is not installed "
+               "here, so the native import obligation exercises exactly that case)")
     rep.min_obligations = 300
     return rep.finish()
 
